@@ -84,6 +84,8 @@ type End struct {
 	CloseCalls int
 	rdeadline  time.Time
 	rtimer     *time.Timer
+	wdeadline  time.Time
+	wtimer     *time.Timer
 	local      net.Addr
 	remote     net.Addr
 	// OnClose, if set, is called (outside the lock) the first time the end is closed.
@@ -191,6 +193,9 @@ func (e *End) Write(p []byte) (int, error) {
 		if h.reset || h.wfail {
 			return 0, ErrReset
 		}
+		if !e.wdeadline.IsZero() && !time.Now().Before(e.wdeadline) {
+			return 0, timeoutError{}
+		}
 		if h.limit > 0 && h.pendingLen+len(h.readable) >= h.limit && !e.peer().closed {
 			l.cond.Wait()
 			continue
@@ -234,6 +239,9 @@ func (e *End) Close() error {
 	if e.rtimer != nil {
 		e.rtimer.Stop()
 	}
+	if e.wtimer != nil {
+		e.wtimer.Stop()
+	}
 	cb := e.OnClose
 	l.cond.Broadcast()
 	l.mu.Unlock()
@@ -253,9 +261,34 @@ func (e *End) LocalAddr() net.Addr  { return e.local }
 func (e *End) RemoteAddr() net.Addr { return e.remote }
 
 func (e *End) SetDeadline(t time.Time) error {
+	e.SetWriteDeadline(t)
 	return e.SetReadDeadline(t)
 }
-func (e *End) SetWriteDeadline(t time.Time) error { return nil }
+
+// SetWriteDeadline: as with net.Conn, a Write that starts or is still blocked after t fails with a timeout error.
+func (e *End) SetWriteDeadline(t time.Time) error {
+	l := e.l
+	l.mu.Lock()
+	defer l.mu.Unlock()
+	e.wdeadline = t
+	if e.wtimer != nil {
+		e.wtimer.Stop()
+		e.wtimer = nil
+	}
+	if !t.IsZero() {
+		d := time.Until(t)
+		if d < 0 {
+			d = 0
+		}
+		e.wtimer = time.AfterFunc(d, func() {
+			l.mu.Lock()
+			l.cond.Broadcast()
+			l.mu.Unlock()
+		})
+	}
+	l.cond.Broadcast()
+	return nil
+}
 func (e *End) SetReadDeadline(t time.Time) error {
 	l := e.l
 	l.mu.Lock()
